@@ -171,7 +171,22 @@ PURE_CALLS = {
     "logical_and": lambda n, a: n.logical_and(a, True), "logical_or": lambda n, a: n.logical_or(a, False), "logical_not2": lambda n, a: n.logical_not(n.logical_not(a)),
     "fill_null": lambda n, a: n.additional.fill_null(a, 0), "matrix_transpose2": lambda n, a: n.matrix_transpose(n.matrix_transpose(a)),
     "tril": lambda n, a: n.tril(a, k=10), "unique_values": lambda n, a: n.unique_values(a), "isin": lambda n, a: n.additional.isin(a, [1]),
+    # conversions to ANOTHER dtype with the copy argument left at its default: the argument keeps dtype and value
+    "asarray-other-dtype": lambda n, a: n.asarray(a, dtype=_other_dtype(n, a)), "astype-other-dtype": lambda n, a: n.astype(a, _other_dtype(n, a)),
+    "method-astype-other-dtype": lambda n, a: a.astype(_other_dtype(n, a)), "asarray-same-dtype": lambda n, a: n.asarray(a, dtype=a.dtype),
+    "zeros_like-other": lambda n, a: n.zeros_like(a, dtype=_other_dtype(n, a)), "full_like-other": lambda n, a: n.full_like(a, 1, dtype=_other_dtype(n, a)),
 }
+
+
+def _other_dtype(n, a):
+    """A dtype the array can be cast to that differs from its own (nullable stays nullable)."""
+    name = impl.dtname(a.dtype)
+    nul = impl.is_nullable(name)
+    base = name[1:] if nul else name
+    other = {"int64": "float64", "float32": "int32", "bool": "int8", "utf8": "utf8", "int8": "int64"}.get(base, "float64")
+    if other == base:
+        raise TypeError("no other dtype")
+    return impl.dt(("n" if nul else "") + other)
 NO_COPY = {"asarray-nocopy": lambda n, a: n.asarray(a), "astype-nocopy": lambda n, a: n.astype(a, a.dtype, copy=False),
            "reshape-nocopy": lambda n, a: n.reshape(a, a.shape, copy=False), "values": lambda n, a: a.values, "null": lambda n, a: a.null}
 
@@ -189,13 +204,14 @@ def sharing_row(job):
         a = ndx.asarray(val)
     before_cells = cells(a)
     before_val = a.to_numpy()
+    before_dtype = a.dtype
     f = PURE_CALLS.get(fn) or NO_COPY[fn]
     try:
         b = f(ndx, a)
     except Exception as e:
         return {"skip": f"{type(e).__name__}"}
     out = {"shared": len(cells(b) & before_cells) if isinstance(b, ndx.Array) else 0, "same_object": b is a,
-           "arg_cells_changed": cells(a) != before_cells}
+           "arg_cells_changed": cells(a) != before_cells, "arg_dtype_changed": a.dtype != before_dtype}
     if mode == "eager":
         after = a.to_numpy()
         out["arg_changed"] = not progs.same_value(after, before_val) if after is not None else True
@@ -320,7 +336,7 @@ def run(ctx: common.Ctx):
                 ctx.violation(f"{fn}/{'nullable' if impl.is_nullable(d) else d}/returns-argument-storage",
                               f"{fn}({d}, {m}) hands back {'its argument' if r['same_object'] else str(r['shared']) + ' core array(s) of its argument'}",
                               {"function": fn, "dtype": d, "mode": m, **r})
-            if r.get("arg_changed") or r.get("arg_cells_changed"):
+            if r.get("arg_changed") or r.get("arg_cells_changed") or r.get("arg_dtype_changed"):
                 ctx.violation(f"{fn}/{d}/modifies-argument", f"{fn}({d}, {m}) changed its argument", {"function": fn, "dtype": d, "mode": m, **r})
             if r.get("write_through"):
                 ctx.violation(f"{fn}/{d}/write-through", f"writing into {fn}({d}) changed the argument", {"function": fn, "dtype": d, **r})
